@@ -111,7 +111,9 @@ func (t *Array) genFunc_IndexOf(m *Module) string {
 	}
 
 	f.Insts = append(f.Insts, block_pre)
-	f.Insts = append(f.Insts, ret.EmitPush()...)
+	// ret 持有所选元素的一个引用, 函数没有收尾代码来释放它:
+	// 直接把这个引用移交给调用方(不再 Retain), 否则每次调用泄漏一个引用
+	f.Insts = append(f.Insts, ret.EmitPushNoRetain()...)
 	m.AddFunc(&f)
 	return fn_name
 }
